@@ -301,7 +301,16 @@ impl<'t> G<'t> {
       PT::Tuple(ts) => P::Tuple(ts.iter().map(|x| self.pat(x, depth - 1, binders)).collect()),
       PT::Struct(i) => {
         let fs = self.d.structs[*i].clone();
-        P::Struct(fs.iter().map(|(f, x)| (f.clone(), self.pat(x, depth - 1, binders))).collect())
+        let mut subs: Vec<(String, P)> = fs.iter().map(|(f, x)| (f.clone(), self.pat(x, depth - 1, binders))).collect();
+        // fields may be written in any order
+        if subs.len() >= 2 && self.t.bool(1, 2) {
+          let k = self.t.choose(subs.len());
+          subs.rotate_left(k);
+          if self.t.bool(1, 2) {
+            subs.reverse();
+          }
+        }
+        P::Struct(subs)
       }
       PT::Enum(_) | PT::Opt(_) => {
         let vs = variants_of(&self.d, t).unwrap();
